@@ -18,6 +18,7 @@ import gc
 from sim import aioloop as A
 from sim.adata import Events, PrivateFault, make_async_data
 from sim.aioloop import GATE_DELAYS
+from sim.envs import clear_process_caches
 from sim.core import Outcome, digest, exc_key, scrub
 from sim.envs import AE_MODES, CodeMemo
 from sim.tape import Tape
@@ -103,12 +104,15 @@ async def _render(env, entry: str, api: int, data: dict, fault_exc):
         return ("raised", exc_key(e))
 
 
-def _reference(P, ae, lc, cache_size, entry, api, data_seed):
+def _reference(P, ae, lc, cache_size, entry, api, data_seed, globals_mode=False):
     """The task alone: fresh environment of the same configuration, fresh FIFO loop, same data."""
     zero = Tape(streams={})
     env = _make_env(P, ae, lc, cache_size, zero)
     loop = A.SimLoop(zero)
     data = make_async_data(zero, Events(), seed=data_seed)
+    if globals_mode:
+        env.globals.update(data)
+        data = {}
     try:
         r, e = A.run_loop(loop, _render(env, entry, api, data, None))
         if e is not None:
@@ -118,7 +122,7 @@ def _reference(P, ae, lc, cache_size, entry, api, data_seed):
         A.close_loop(loop)
 
 
-def _concurrent(tape, P, ae, lc, cache_size, specs, fault, fresh_env_per_task=False):
+def _concurrent(tape, P, ae, lc, cache_size, specs, fault, fresh_env_per_task=False, globals_mode=False):
     shared_env = None if fresh_env_per_task else _make_env(P, ae, lc, cache_size, tape)
     loop = A.SimLoop(tape)
     fault_exc = PrivateFault("peer fault")
@@ -131,6 +135,11 @@ def _concurrent(tape, P, ae, lc, cache_size, specs, fault, fresh_env_per_task=Fa
             ev = Events(fault_at=fk if (fkind == 2 and i == ftask) else 0, exc=fault_exc)
             data = make_async_data(tape, ev, seed=dseed)
             env = shared_env if shared_env is not None else _make_env(P, ae, lc, cache_size, tape)
+            if globals_mode:
+                # the data lives in the environment globals (one data set for all tasks); renders get no variables
+                if i == 0 or shared_env is None:
+                    env.globals.update(data)
+                data = {}
             t = loop.create_task(_render(env, entry, api, data, fault_exc), name=f"r{i}")
             tasks.append((t, ev))
         if fkind == 1:
@@ -167,6 +176,7 @@ def _concurrent(tape, P, ae, lc, cache_size, specs, fault, fresh_env_per_task=Fa
 
 def run(tape: Tape) -> Outcome:
     setup()
+    clear_process_caches()  # a run must not depend on the runs before it in this worker
     out = Outcome()
     ae = tape.draw(3)  # autoescape: off, on, by template name (callable)
     lc = bool(tape.draw(2))
@@ -183,13 +193,18 @@ def run(tape: Tape) -> Outcome:
     if tape.draw(2):
         tg["base"] = 11 + tape.draw(3)
     nt = 2 + tape.draw(3)
+    globals_mode = tape.draw(4) == 3
     specs = []
     for _ in range(nt):
         entry = P.entry_points[tape.draw(len(P.entry_points))]
         api = tape.draw(2)
         dseed = tape.draw(1 << 30, "d")
+        if globals_mode and specs:
+            dseed = specs[0][2]
         specs.append((entry, api, dseed))
     fkind = tape.draw(3, "f")  # 0 none, 1 cancel peer at step k, 2 peer data raises at event k
+    if globals_mode and fkind == 2:
+        fkind = 0  # the data (and its event counter) is shared in globals mode: no per-task data fault
     ftask = tape.draw(nt, "f") if fkind else 0
     fk = 1 + tape.draw(16, "f") if fkind else 0
     fault = (fkind, ftask, fk)
@@ -200,11 +215,11 @@ def run(tape: Tape) -> Outcome:
     gc.disable()
     try:
         try:
-            results, loop, info = _concurrent(tape, P, ae, lc, cache_size, specs, fault)
+            results, loop, info = _concurrent(tape, P, ae, lc, cache_size, specs, fault, globals_mode=globals_mode)
         except A.SimStall as e:
             out.violate(("stall",), stall=str(e), templates=P.templates, specs=specs)
             return out
-        refs = [_reference(P, ae, lc, cache_size, entry, api, dseed) for entry, api, dseed in specs]
+        refs = [_reference(P, ae, lc, cache_size, entry, api, dseed, globals_mode) for entry, api, dseed in specs]
         mism = []
         for i, (got, ref) in enumerate(zip(results, refs)):
             if fkind and i == ftask and got in (("cancelled",), ("fault",)):
@@ -231,9 +246,10 @@ def run(tape: Tape) -> Outcome:
             if P.features.get(f):
                 out.count("prog_with_" + f)
         out.count("cache_size_%d" % cache_size)
+        out.count("runs_data_in_environment_globals", 1 if globals_mode else 0)
         out.trace = digest([trace, results])
         out.decoded = {
-            "templates": P.templates, "tags": sorted(P.tags), "template_globals": dict(tg), "autoescape": ae, "loopcontrols": lc, "cache_size": cache_size,
+            "templates": P.templates, "tags": sorted(P.tags), "template_globals": dict(tg), "autoescape": ae, "loopcontrols": lc, "cache_size": cache_size, "data_in_environment_globals": globals_mode,
             "tasks": [{"task": f"r{i}", "entry": e, "api": ["render_async", "generate_async"][a], "data_seed": d}
                       for i, (e, a, d) in enumerate(specs)],
             "fault": {"kind": ["none", "cancel-peer", "peer-data-raises"][fkind], "task": f"r{ftask}", "k": fk, "fired": info["fired"]},
@@ -245,7 +261,7 @@ def run(tape: Tape) -> Outcome:
             if "module_state" in P.tags:
                 # structured classifier for KF-C29-1: state retained by the environment's cached
                 # templates/modules; a fresh Environment per task must remove the mismatch
-                r2, _l2, _i2 = _concurrent(Tape(streams=tape.used()), P, ae, lc, cache_size, specs, fault, fresh_env_per_task=True)
+                r2, _l2, _i2 = _concurrent(Tape(streams=tape.used()), P, ae, lc, cache_size, specs, fault, fresh_env_per_task=True, globals_mode=globals_mode)
                 still = [j for j, (g, rf) in enumerate(zip(r2, refs))
                          if not (fkind and j == ftask and g in (("cancelled",), ("fault",))) and g != rf]
                 if not still:
